@@ -287,6 +287,10 @@ func tryReplay(o *Obligation) (bool, map[string]any) {
 
 // runOverlayTest injects an in-package test through go test -overlay (nothing is written to /repo).
 func runOverlayTest(pkgPath, src string) (string, error) {
+	return runOverlayTestNamed(pkgPath, src, "^TestVerifReplay$", "60s")
+}
+
+func runOverlayTestNamed(pkgPath, src, runPat, timeout string) (string, error) {
 	dir, err := os.MkdirTemp("", "govc-replay-*")
 	if err != nil {
 		return "", err
@@ -305,14 +309,14 @@ func runOverlayTest(pkgPath, src string) (string, error) {
 	if rel == "" {
 		pkgArg = "."
 	}
-	cmd := exec.Command("go", "test", "-mod=mod", "-overlay", ovFile, "-vet=off", "-timeout", "60s", "-count=1", "-run", "^TestVerifReplay$", "-v", pkgArg)
+	cmd := exec.Command("go", "test", "-mod=mod", "-overlay", ovFile, "-vet=off", "-timeout", timeout, "-count=1", "-run", runPat, "-v", pkgArg)
 	cmd.Dir = repoDir()
 	cmd.Env = append(os.Environ(), "GOFLAGS=-mod=mod", "GOPROXY=off")
 	var out bytes.Buffer
 	cmd.Stdout = &out
 	cmd.Stderr = &out
 	err = cmd.Run()
-	if err != nil && !strings.Contains(out.String(), "REPLAY-") {
+	if err != nil && (!strings.Contains(out.String(), "REPLAY-") || runPat != "^TestVerifReplay$") {
 		return out.String(), err
 	}
 	return out.String(), nil
@@ -352,4 +356,52 @@ func cmdReplay(args []string) int {
 	return 0
 }
 
-func runBounded(prop, tier string) []boundedResult { return nil }
+// runBounded runs the bounded stand-ins registered for the property in /verif/harness/bounded.json: in-package tests
+// injected through go test -overlay, so they execute the functions of /repo's working tree. They are labelled bounded
+// in the evidence and never counted among the discharged obligations; a failing one is a violation with its output.
+func runBounded(prop, tier string) []boundedResult {
+	data, err := os.ReadFile(filepath.Join(verifDir(), "harness", "bounded.json"))
+	if err != nil {
+		return nil
+	}
+	var table []struct {
+		Property, Name, Pkg, File, Bound, What string
+	}
+	if json.Unmarshal(data, &table) != nil {
+		return nil
+	}
+	var res []boundedResult
+	for _, b := range table {
+		if b.Property != prop {
+			continue
+		}
+		r := boundedResult{Name: b.Name, Desc: b.What + " — bound: " + b.Bound}
+		src, err := os.ReadFile(filepath.Join(verifDir(), b.File))
+		if err != nil {
+			r.Output = "harness missing: " + err.Error()
+			res = append(res, r)
+			continue
+		}
+		pkgPath := modPath
+		if b.Pkg != "" {
+			pkgPath = modPath + "/" + b.Pkg
+		}
+		out, err := runOverlayTestNamed(pkgPath, string(src), "^TestVerifBounded$", "300s")
+		r.Output = truncate(out, 4000)
+		for _, ln := range strings.Split(out, "\n") {
+			if strings.HasPrefix(ln, "BOUNDED-CASES ") {
+				fmt.Sscanf(strings.TrimPrefix(ln, "BOUNDED-CASES "), "%d", &r.Cases)
+			}
+		}
+		r.OK = err == nil && r.Cases > 0 && !strings.Contains(out, "BOUNDED-FAIL") && !strings.Contains(out, "--- FAIL") && strings.HasPrefix(lastLine(out), "ok")
+		res = append(res, r)
+	}
+	return res
+}
+
+func lastLine(s string) string {
+	ls := strings.Split(strings.TrimSpace(s), "\n")
+	return ls[len(ls)-1]
+}
+
+
